@@ -189,7 +189,62 @@ static void sched_child(const void *job, size_t n) {
 	hx_emit_trace(); res_finish();
 }
 
-void c06_register(void) { harness_register("c06.route", route_child); harness_register("c06.queue", queue_child); harness_register("c06.sched", sched_child); }
+
+/* ---------------------------------------------------------------- E1: buffer ownership, every uplink type (normal mode)
+ * For every uplink type 0x80..0xFF: the receiver of a normal-mode session (standard configuration, sender = the SecAck
+ * interface) handles one message of that type while an application thread drains both queues, overwrites every buffer it
+ * gets and frees it.  Once a buffer is in a queue it is the caller's: any later access by the library is a use-after-free
+ * under ASan (every schedule with <= 1 preemption, thorough 2); a SecAck mirror must still carry the reported payload. */
+#include "../fw/simbus.h"
+#include "../fw/cfg.h"
+static void own_payload(uint8_t type, uint8_t *d, int *dl) {
+	memset(d, 0, 16); *dl = 9;
+	switch (type) {
+	case MSG_BM_OCC: case MSG_BM_FREE: d[0] = 1; *dl = 1; break;
+	case MSG_BM_MULTIPLE: d[0] = 0; d[1] = 8; d[2] = 0x03; *dl = 3; break;
+	case MSG_BM_ADDRESS: d[0] = 0; d[1] = 0x23; d[2] = 0x01; *dl = 3; break;
+	case MSG_BM_POSITION: d[0] = 0x23; d[1] = 0x01; d[2] = 0; d[3] = 0x34; d[4] = 0x12; *dl = 5; break;
+	case MSG_VENDOR: d[0] = 5; memcpy(d + 1, "30051", 5); d[6] = 1; d[7] = '3'; *dl = 8; break;
+	case MSG_BOOST_DIAGNOSTIC: d[0] = 0; d[1] = 10; d[2] = 1; d[3] = 120; *dl = 4; break;
+	case MSG_NODE_NEW: case MSG_NODE_LOST: d[0] = 2; d[1] = 5; memcpy(d + 2, (uint8_t[]) {0x05, 0, 0x0D, 0x6B, 0, 9, 9}, 7); break;
+	case MSG_ACCESSORY_STATE: case MSG_ACCESSORY_NOTIFY: d[0] = 2; d[1] = 1; d[2] = 2; d[3] = 0; d[4] = 0; *dl = 5; break;
+	case MSG_LC_STAT: case MSG_LC_WAIT: d[0] = 0x23; d[1] = 0x01; d[2] = 1; *dl = 3; break;
+	case MSG_CS_DRIVE_ACK: case MSG_CS_ACCESSORY_ACK: d[0] = 0x23; d[1] = 0x01; d[2] = 1; *dl = 3; break;
+	case MSG_CS_DRIVE_MANUAL: d[0] = 0x23; d[1] = 0x01; d[2] = 3; d[3] = 1; d[4] = 0x85; break;
+	case MSG_STALL: d[0] = 0; *dl = 1; break;
+	default: break;
+	}
+}
+static void *own_reader(void *arg) { (void) arg;
+	for (int i = 0; i < 2; i++) { uint8_t *m = bidib_read_message(); if (m) { memset(m, 0xEE, (size_t) m[0] + 1 > 3 ? 3 : 1); free(m); } m = bidib_read_error_message(); if (m) { memset(m, 0xEE, 1); free(m); } }
+	return NULL; }
+static void own_child(const void *job, size_t n) {
+	vs_dev_t devs[VS_MAXDEV]; int nd; size_t pl; const uint8_t *p = job_parse(job, n, devs, &nd, &pl);
+	uint8_t type = p[0];
+	hx_child_begin(devs, nd, 1, NULL, 0, 0);
+	cfg_install_std();
+	if (hx_start_normal(0)) res_infra("normal start failed");
+	hx_quiesce(); vs_sleep_us(2500000); hx_quiesce();
+	uint8_t *m; while ((m = bidib_read_message())) free(m); while ((m = bidib_read_error_message())) free(m);
+	hx_emit_san_events("start-up");
+	int logpos = SB.nlog; uint8_t d[16]; int dl; own_payload(type, d, &dl);
+	{ uint8_t mm[40], f[90]; int ml = rc_build_msg(mm, SB.n[0].addr, SB.n[0].seq, type, d, dl); SB.n[0].seq = SB.n[0].seq == 255 ? 1 : (uint8_t) (SB.n[0].seq + 1); env_push_quiet(f, rc_frame(f, mm, (size_t) ml, 1)); }
+	vs_window(1);
+	int r1 = vs_spawn(own_reader, NULL); vs_join_tid(r1); hx_quiesce();
+	vs_window(0);
+	bidib_flush(); hx_quiesce();
+	while ((m = bidib_read_message())) free(m); while ((m = bidib_read_error_message())) free(m);
+	char what[80]; snprintf(what, sizeof what, "receiver handling type %02x || queue reader", type);
+	hx_emit_san_events(what);
+	hx_hash_t h; hx_hash_init(&h);
+	for (int i = logpos; i < SB.nlog; i++) { hx_hash_add(&h, &SB.log[i].type, 1); hx_hash_add(&h, SB.log[i].data, (size_t) SB.log[i].dlen);
+		uint8_t t = SB.log[i].type; if ((t == MSG_BM_MIRROR_OCC || t == MSG_BM_MIRROR_FREE || t == MSG_BM_MIRROR_MULTIPLE || t == MSG_BM_MIRROR_POSITION) && (SB.log[i].dlen != dl || memcmp(SB.log[i].data, d, (size_t) dl)))
+			res_violation("buffer-used-after-queueing: a message the library still uses was handed to the caller", "%s: mirror %02x carries %s, reported %s", what, t, hx_hex(SB.log[i].data, (size_t) SB.log[i].dlen), hx_hex(d, (size_t) dl)); }
+	hx_emit_ledger_violations("C06");
+	res_printf("O %llx %llx\n", (unsigned long long) h.a, (unsigned long long) h.b);
+	hx_emit_trace(); res_finish();
+}
+void c06_register(void) { harness_register("c06.own", own_child); harness_register("c06.route", route_child); harness_register("c06.queue", queue_child); harness_register("c06.sched", sched_child); }
 int c06_run(const char *tier) {
 	int thorough = !strcmp(tier, "thorough"); q_depth = thorough ? 5 : 3;
 	long execs = 0, states = 0, transitions = 0; int exhaustive = 1;
@@ -200,6 +255,12 @@ int c06_run(const char *tier) {
 	e1_spec_t s = { .harness = "c06.sched", .param = "", .nparam = 0, .bound = thorough ? 3 : 2, .label = "c06.sched two readers vs receiver" };
 	e1_explore(&s); long ex = 0; for (int k = 0; k < 8; k++) ex += s.schedules_by_cost[k];
 	execs += ex; states += s.distinct_outcomes; transitions += s.choice_points; if (!s.exhaustive) exhaustive = 0;
+	long own = 0; for (int t = 0x80; t <= 0xFF; t++) { uint8_t tp[1] = {(uint8_t) t}; char label[64]; snprintf(label, sizeof label, "c06.own type %02x", t);
+		if (t == MSG_NODE_NEW || t == MSG_NODE_LOST || t == MSG_NODETAB || t == MSG_NODETAB_COUNT) continue;     /* these restart the node enumeration: C15's subject, seconds of virtual traffic */
+		e1_spec_t os = { .harness = "c06.own", .param = tp, .nparam = 1, .bound = thorough ? 2 : 1, .label = strdup(label) };
+		e1_explore(&os); for (int k = 0; k < 8; k++) own += os.schedules_by_cost[k]; states += os.distinct_outcomes; transitions += os.choice_points; if (!os.exhaustive) exhaustive = 0; }
+	execs += own;
+	rep_note("c06.own (buffer ownership, receiver handling one message of each uplink type || draining reader, normal mode, ASan): %ld schedules over 124 types, bound %d", own, thorough ? 2 : 1);
 	rep_note("route cases=%ld (256 types + content sweeps, 2 modes); queue histories=%ld (fill 0..131 and depth<=%d around the bound, 2 queues); c06.sched bound=%d schedules=[%ld,%ld,%ld,%ld] outcomes=%ld",
 	         route_count(), q.done, q_depth, s.bound, s.schedules_by_cost[0], s.schedules_by_cost[1], s.schedules_by_cost[2], s.schedules_by_cost[3], s.distinct_outcomes);
 	rep_count("executions", execs); rep_count("states", states); rep_count("transitions", transitions); rep_flag("exhaustive", exhaustive);
